@@ -36,9 +36,16 @@ fn build(hs: &HistSeed) -> Option<(Cfg, Vec<Call>, Runner)> {
                 continue;
             }
             let s = r.step(&call);
+            let was_put = matches!(call, Call::Put(..));
             history.push(call);
             if s.panicked.is_some() || s.desync || matches!(s.exp, crate::interp::Exp::Broken(_)) {
                 return None;
+            }
+            // the object is saved many times while it grows and shrinks (an overwriting put with a
+            // shorter datum makes the image smaller than an earlier checkpoint was)
+            if was_put && history.len() % 2 == 0 {
+                r.step(&Call::Checkpoint);
+                history.push(Call::Checkpoint);
             }
         }
     }
@@ -123,7 +130,7 @@ impl PrefixEngine {
         let bytes = std::fs::read(&p).unwrap_or_default();
         if bytes.len() != size {
             let _ = std::fs::remove_file(&p);
-            return (Some(fail("save.size", 0, format!("save() returned {size} but the file has {} bytes (the path held an older, longer file before)", bytes.len()))), 0, size);
+            return (Some(fail("save.size", 0, format!("save() returned {size} but the file has {} bytes (the file is not exactly the image; the path may have held an older file before)", bytes.len()))), 0, size);
         }
         // control: the complete image loads
         match catch_unwind(AssertUnwindSafe(|| load_graph(cfg.n, &p).map(|g| g.keys()))) {
